@@ -203,6 +203,71 @@ func init() {
 		good := ksCase{3, "aes-128-ctr", "pbkdf2", "hmac-sha256", true, true, true, true, 1, 32, 16, true}
 		p := good.build(tmp, 0, "pw")
 		os.Rename(p, filepath.Join(tmp, "UTC--2020-01-01T00-00-00.000000000Z--addr0.json"))
+		// every control path of each method (error returns included), followed by a Save and a Load on the
+		// same store under a watchdog: a path that returns while holding the mutex blocks them for ever
+		scen := []struct {
+			name string
+			run  func(k *didcrypto.KeyStore, d string)
+		}{
+			{"loadByAddress-missing", func(k *didcrypto.KeyStore, d string) { k.LoadByAddress("nobody", "pw") }},
+			{"loadByAddress-ok", func(k *didcrypto.KeyStore, d string) { k.LoadByAddress("addr0", "pw") }},
+			{"loadByAddress-wrong-password", func(k *didcrypto.KeyStore, d string) { k.LoadByAddress("addr0", "nope") }},
+			{"load-missing-file", func(k *didcrypto.KeyStore, d string) { k.Load(filepath.Join(d, "missing.json"), "pw") }},
+			{"load-corrupt-file", func(k *didcrypto.KeyStore, d string) {
+				os.WriteFile(filepath.Join(d, "corrupt.json"), []byte("{not json"), 0o600)
+				k.Load(filepath.Join(d, "corrupt.json"), "pw")
+			}},
+			{"load-wrong-password", func(k *didcrypto.KeyStore, d string) {
+				k.Load(filepath.Join(d, "UTC--2020-01-01T00-00-00.000000000Z--addr0.json"), "nope")
+			}},
+			{"save-ok", func(k *didcrypto.KeyStore, d string) { ksSaveQuick(k, d) }},
+			{"save-into-removed-dir", func(k *didcrypto.KeyStore, d string) {
+				k2, _ := didcrypto.NewKeyStore(filepath.Join(d, "gone"))
+				os.RemoveAll(filepath.Join(d, "gone"))
+				k2.Save("x", []byte("0123456789abcdef0123456789abcdef"), "pw") // fails in os.Create under the write lock
+				k2.Load(filepath.Join(d, "gone", "x"), "pw")
+				os.MkdirAll(filepath.Join(d, "gone"), 0o700)
+				done := make(chan struct{})
+				go func() { k2.Save("y", []byte("0123456789abcdef0123456789abcdef"), "pw"); close(done) }()
+				select {
+				case <-done:
+				case <-time.After(8 * time.Second):
+					panic("stuck")
+				}
+			}},
+		}
+		for _, sc := range scen {
+			d2, _ := os.MkdirTemp("", "verifks")
+			k2, _ := didcrypto.NewKeyStore(d2)
+			pp := good.build(d2, 0, "pw")
+			os.Rename(pp, filepath.Join(d2, "UTC--2020-01-01T00-00-00.000000000Z--addr0.json"))
+			res := make(chan string, 1)
+			go func() {
+				defer func() {
+					if r := recover(); r != nil {
+						res <- "fail #" + fmt.Sprint(r)
+					}
+				}()
+				sc.run(k2, d2)
+				if _, err := k2.Save("after", []byte("0123456789abcdef0123456789abcdef"), "pw"); err != nil {
+					res <- "fail #save-after: " + err.Error()
+					return
+				}
+				if _, err := k2.LoadByAddress("addr0", "pw"); err != nil {
+					res <- "fail #load-after: " + err.Error()
+					return
+				}
+				res <- "pass"
+			}()
+			ans := ""
+			select {
+			case ans = <-res:
+			case <-time.After(10 * time.Second):
+				ans = "fail #later-Save/Load-blocked-for-ever"
+			}
+			s.Emit("mon.c20.kslock.path "+sc.name, ans)
+			os.RemoveAll(d2)
+		}
 		loaders, savers := 6, 6
 		dur := 1500 * time.Millisecond
 		if tier == "thorough" {
